@@ -16,7 +16,7 @@ import impl_session as S  # noqa: E402
 LEAN_MODULES = ["KmipModel.Props.C12", "KmipModel.Props.Server", "KmipModel.Props.ServerBytes"]
 RULE = ("byte streams = sequences of frames drawn from: valid requests for the 21 dispatched operations x KMIP "
         "1.0-2.0 (built with kmip.core.messages and encoded with .write, incl. frames larger than two receive "
-        "buffers), 13 grammar-aware mutation classes of them (truncate, inflate/deflate a length field, flip a type "
+        "buffers, and - implementation monitor only - valid requests of 1-2 MiB followed by an ordinary request), 13 grammar-aware mutation classes of them (truncate, inflate/deflate a length field, flip a type "
         "byte, swap a tag, deep nesting, huge counts / text lengths, unsupported versions with and without batch "
         "items, bit flips, trailing bytes), raw random bytes behind a consistent header; shapes bad*-then-good, "
         "mixed, good-only; every stream is served on a real KmipSession three times from the same database snapshot: "
@@ -565,6 +565,8 @@ def run(ctx):
     })
     ncut = cutvalue_pass(ctx, random.Random(ctx.seed * 7 + 3), 1500 if ctx.tier == "quick" else 30000)
     ctx.coverage["evaluations"] = ctx.coverage.get("evaluations", 0) + ncut
+    nhuge = huge_pass(ctx, random.Random(ctx.seed * 11 + 5), 4 if ctx.tier == "quick" else 40)
+    ctx.coverage["evaluations"] += 2 * nhuge
     if divs or rdiv:
         # a divergence alone is not a violation: look for a failing input around it first
         n0 = len(ctx.violations)
@@ -614,6 +616,62 @@ def cutvalue_pass(ctx, rnd, n):
     return tried
 
 
+def huge_one(rig, snap, kind, v, size, step):
+    """one stream [valid request of about `size` bytes of payload; Query]; -> [(signature, what)]"""
+    q = G.encode_request(G.mkreq(12, [{"op": "query", "bid": None, "crypto": None, "functions": [1, 2]}]))
+    if kind == "register":
+        big = G.encode_request(G.mkreq(v, [G.big_register(v, size)]))
+    else:
+        big = G.encode_request(G.mkreq(v, [{"op": "locate", "bid": None, "crypto": None, "max": None, "offset": None,
+                                            "attrs": [{"name": "Name", "index": None,
+                                                       "value": {"k": "name", "v": "n" * size, "t": 1}}]}]))
+    what = "%s-%d" % (kind, size)
+    stream = big + q
+    events = [stream] if step is None else [stream[i:i + step] for i in range(0, len(stream), step)]
+    rig.restore(snap)
+    res = rig.run_session(events, S.make_cert(), digests=False)
+    outs = res["out"]
+    if res["run_escaped"]:
+        return [("c12:exception-escaped:huge", "%s: %s" % (what, res["run_escaped"]))]
+    if len(outs) != 2:
+        return [("c12:answers-per-frame:huge", "a %d-byte %s request followed by a Query: 2 frames were sent, "
+                 "%d answers came back" % (len(big), what, len(outs)))]
+    try:
+        a, b = S.decode_response(outs[0], rig.default_version), S.decode_response(outs[1], rig.default_version)
+    except Exception as e:
+        return [("c12:answer-undecodable:huge", "%s: %s" % (what, e))]
+    fails = []
+    if not (a["items"] and a["items"][0]["status"] == "SUCCESS"):
+        fails.append(("c12:valid-request-refused:huge", "a valid %d-byte %s request was answered %s" % (len(big), what, a["items"])))
+    if not (b["items"] and b["items"][0]["status"] == "SUCCESS" and b["items"][0]["op"] == "QUERY"):
+        fails.append(("c12:next-request-not-served:huge", "the Query after a %d-byte %s request was answered %s"
+                      % (len(big), what, b["items"])))
+    return fails
+
+
+def huge_pass(ctx, rnd, n):
+    """framed requests larger than one mebibyte (the session's own size constants), whole and in transport-sized
+    pieces, each followed by an ordinary request on the same connection: one answer per frame, the big request is
+    executed (it is valid), the next one is served normally.  Implementation monitor only (the frames are too large
+    for the line protocol of the model driver to be worth it; the model's framing theorems have no size bound)."""
+    rig = S.Rig()
+    done = 0
+    try:
+        snap = setup_base(rig)
+        for k in range(n):
+            size = rnd.choice([1048576 - 4096, 1048576 + 1, 1100000, 1300000, 2200000])
+            v = rnd.choice([10, 12, 14, 20])
+            kind = rnd.choice(["register", "locate"])
+            step = rnd.choice([None, 65536, 16384, 100000])
+            done += 1
+            for sig, what in huge_one(rig, snap, kind, v, size, step):
+                ctx.report(sig, what, {"kind": "huge", "what": kind, "version": v, "size": size, "step": step})
+    finally:
+        rig.close()
+    ctx.coverage["huge_frame_streams"] = done
+    return done
+
+
 def search(ctx, broken, budget=None):
     """more cases than run(), implementation monitors only"""
     rnd = random.Random(ctx.seed * 104729 + 99)
@@ -625,6 +683,17 @@ def search(ctx, broken, budget=None):
 
 
 def replay(ctx, rep):
+    if (rep.get("replay") or {}).get("kind") == "huge":
+        r = rep["replay"]
+        rig = S.Rig()
+        try:
+            snap = setup_base(rig)
+            fails = huge_one(rig, snap, r["what"], r["version"], r["size"], r["step"])
+            for sig, what in fails:
+                print("  %s: %s" % (sig, what))
+            return not fails
+        finally:
+            rig.close()
     r = rep["replay"]
     rig = S.Rig()
     try:
